@@ -61,7 +61,8 @@ def run(tier, build, replay=None):
         base["impl"] = [hist.impl_compute(base["cases"][0])]
     else:
         base = l2.run(tier)
-    limit = 2000 if tier == "quick" else 12000
+    from harness import fingerprint
+    limit = 2000 * max(fingerprint.boost("l2"), fingerprint.boost("l4")) if tier == "quick" else 12000
     pre_cases, pre_src, day_jobs = [], [], []
     for idx, (c, i) in enumerate(zip(base["cases"], base["impl"])):
         if len(pre_cases) >= limit:
